@@ -507,98 +507,7 @@ func c09Bookkeeping(c *Ctx, t *c09Tables) {
 	// ------------------------------------------------------------ J8
 	c.Rule("C09.J8", "OWNERSHIP", "a slice whose previous value a journal entry keeps by reference (stateObject.delegations → delegationsChange.prevdlgs) is never edited in place: every element store or copy() destination in core/state whose backing array may be the field's current one — reached through append or re-slicing without a fresh make — is a violation, because it rewrites the undo copy")
 	c.Min(2)
-	{
-		dlgF := w.Field(statePkg, "stateObject", "delegations")
-		var mayAlias func(v ssa.Value, seen map[ssa.Value]bool) bool
-		mayAlias = func(v ssa.Value, seen map[ssa.Value]bool) bool {
-			if seen[v] {
-				return false
-			}
-			seen[v] = true
-			switch x := v.(type) {
-			case *ssa.Slice:
-				return mayAlias(x.X, seen)
-			case *ssa.ChangeType:
-				return mayAlias(x.X, seen)
-			case *ssa.Convert:
-				return mayAlias(x.X, seen)
-			case *ssa.Phi:
-				for _, e := range x.Edges {
-					if mayAlias(e, seen) {
-						return true
-					}
-				}
-			case *ssa.Call:
-				if bi, ok := x.Call.Value.(*ssa.Builtin); ok && bi.Name() == "append" {
-					return mayAlias(x.Call.Args[0], seen)
-				}
-			case *ssa.UnOp:
-				if f, base := loadedField(x); f == dlgF {
-					// the list of another object that this function has just given a fresh array (the copy in deepCopy)
-					fn := x.Parent()
-					if len(fn.Params) > 0 && base != ssa.Value(fn.Params[0]) {
-						stores, fresh := 0, 0
-						for _, fw := range fieldWrites(fn) {
-							if fw.Field == dlgF && fw.Kind == "store" && samePath(fw.Base, base) {
-								stores++
-								if _, isMake := stripConv(fw.Instr.(*ssa.Store).Val).(*ssa.MakeSlice); isMake {
-									fresh++
-								}
-							}
-						}
-						if stores > 0 && stores == fresh {
-							return false
-						}
-					}
-					return true
-				}
-			}
-			return false
-		}
-		nWrites := 0
-		for _, fn := range w.FuncsIn(statePkg) {
-			if strings.HasSuffix(w.fileOf(fn.Pos()), "_test.go") {
-				continue
-			}
-			uses := false
-			for _, in := range fieldReads(fn, dlgF) {
-				_ = in
-				uses = true
-			}
-			if !uses {
-				continue
-			}
-			n := 0
-			for _, in := range allInstrs(fn) {
-				var dst ssa.Value
-				switch x := in.(type) {
-				case *ssa.Store:
-					if ia, ok := x.Addr.(*ssa.IndexAddr); ok {
-						dst = ia.X
-					}
-				case *ssa.Call:
-					if bi, ok := x.Call.Value.(*ssa.Builtin); ok && bi.Name() == "copy" {
-						dst = x.Call.Args[0]
-					}
-				}
-				if dst == nil {
-					continue
-				}
-				if _, isSlice := dst.Type().Underlying().(*types.Slice); !isSlice {
-					continue
-				}
-				nWrites++
-				c.sites++
-				c.sawFunc(fname(fn))
-				alias := mayAlias(dst, map[ssa.Value]bool{})
-				c.Check(fmt.Sprintf("%s#in-place-write@%d-not-on-journaled-slice", fname(fn), n), in.Pos(), !alias, ifelse(!alias, "the slice written into is freshly made in this function", "elements are written into a slice that may share its backing array with stateObject.delegations (obtained by append / re-slicing, which reuse spare capacity): the journal's undo copy of the delegation list is the same array, so a revert restores a list with a phantom validator and without the last real one — under the old hash"))
-				n++
-			}
-		}
-		if nWrites < 2 {
-			c.Undecided("core/state.stateObject.delegations#in-place-writes", 0, fmt.Sprintf("only %d in-place slice writes found in functions that read the delegation list", nWrites))
-		}
-	}
+	journaledSliceWrites(c, w, "stateObject.delegations")
 
 	// ------------------------------------------------------------ J9
 	c.Rule("C09.J9", "TYPESTATE", "validator records the journal refers to are frozen: after a record was handed to UpdateValidator — as the new value or as the pre-image, directly or as the result of UpdateDelegation — no field of it is stored and no *big.Int field of it is updated in place on any path that follows in the same function (a further change works on a new copy); and Validator.UpdateDelegationFrom never writes into the slice it found (PartialCopy shares it with the pre-image): it builds a new one")
@@ -1056,4 +965,107 @@ func lifecycleHelper(w *World, t *c09Tables, fn *ssa.Function) string {
 		name = n
 	}
 	return name
+}
+
+// journaledSliceWrites is the OWNERSHIP rule shared by C09.J8 and C08.V8: no
+// in-place write into a slice whose previous value a journal entry keeps by
+// reference.
+func journaledSliceWrites(c *Ctx, w *World, what string) {
+
+	dlgF := w.Field(statePkg, "stateObject", "delegations")
+	var mayAlias func(v ssa.Value, seen map[ssa.Value]bool) bool
+	mayAlias = func(v ssa.Value, seen map[ssa.Value]bool) bool {
+		if seen[v] {
+			return false
+		}
+		seen[v] = true
+		switch x := v.(type) {
+		case *ssa.Slice:
+			return mayAlias(x.X, seen)
+		case *ssa.ChangeType:
+			return mayAlias(x.X, seen)
+		case *ssa.Convert:
+			return mayAlias(x.X, seen)
+		case *ssa.Phi:
+			for _, e := range x.Edges {
+				if mayAlias(e, seen) {
+					return true
+				}
+			}
+		case *ssa.Call:
+			if bi, ok := x.Call.Value.(*ssa.Builtin); ok && bi.Name() == "append" {
+				return mayAlias(x.Call.Args[0], seen)
+			}
+		case *ssa.UnOp:
+			if f, base := loadedField(x); f == dlgF {
+				// the list of another object that this function has just given a fresh array (the copy in deepCopy)
+				fn := x.Parent()
+				if len(fn.Params) > 0 && base != ssa.Value(fn.Params[0]) {
+					stores, fresh := 0, 0
+					for _, fw := range fieldWrites(fn) {
+						if fw.Field == dlgF && fw.Kind == "store" && samePath(fw.Base, base) {
+							stores++
+							if _, isMake := stripConv(fw.Instr.(*ssa.Store).Val).(*ssa.MakeSlice); isMake {
+								fresh++
+							}
+						}
+					}
+					if stores > 0 && stores == fresh {
+						return false
+					}
+				}
+				return true
+			}
+		}
+		return false
+	}
+	nWrites := 0
+	for _, fn := range w.FuncsIn(statePkg) {
+		if strings.HasSuffix(w.fileOf(fn.Pos()), "_test.go") {
+			continue
+		}
+		uses := false
+		for _, in := range fieldReads(fn, dlgF) {
+			_ = in
+			uses = true
+		}
+		if !uses {
+			continue
+		}
+		n := 0
+		for _, in := range allInstrs(fn) {
+			var dst ssa.Value
+			switch x := in.(type) {
+			case *ssa.Store:
+				if ia, ok := x.Addr.(*ssa.IndexAddr); ok {
+					dst = ia.X
+				}
+			case *ssa.Call:
+				if bi, ok := x.Call.Value.(*ssa.Builtin); ok && bi.Name() == "copy" {
+					dst = x.Call.Args[0]
+				}
+				// append onto a PREFIX of the slice (f[:i]) writes inside the old length
+				if bi, ok := x.Call.Value.(*ssa.Builtin); ok && bi.Name() == "append" {
+					if sl, isSl := x.Call.Args[0].(*ssa.Slice); isSl && sl.High != nil {
+						dst = sl
+					}
+				}
+			}
+			if dst == nil {
+				continue
+			}
+			if _, isSlice := dst.Type().Underlying().(*types.Slice); !isSlice {
+				continue
+			}
+			nWrites++
+			c.sites++
+			c.sawFunc(fname(fn))
+			alias := mayAlias(dst, map[ssa.Value]bool{})
+			c.Check(fmt.Sprintf("%s#in-place-write@%d-not-on-journaled-slice", fname(fn), n), in.Pos(), !alias, ifelse(!alias, "the slice written into is freshly made in this function", "elements are written into a slice that may share its backing array with stateObject.delegations (obtained by append / re-slicing, which reuse spare capacity): the journal's undo copy of the delegation list is the same array, so a revert restores a list with a phantom validator and without the last real one — under the old hash"))
+			n++
+		}
+	}
+	if nWrites < 2 {
+		c.Undecided("core/state.stateObject.delegations#in-place-writes", 0, fmt.Sprintf("only %d in-place slice writes found in functions that read the delegation list", nWrites))
+	}
 }
